@@ -21,6 +21,9 @@ RULE = (
     "detector (Parseval), projection (fourier_projection single/mixed state on a real Ptychography instance, measured amplitudes with exact zeros, read back through "
     "DetectorPixelated.forward), chain (explicit forward chain on a scene with hostile raw pure-phase/potential object and random probe) and insitu (reconstruct() with "
     "hostile learning rates, autograd and analytic paths, wrappers on detector.forward, fourier_shift_expand, _propagate_array, sum_patches, fourier_projection); "
+    "integer shifts are additionally handed over as numpy/torch float64/32/16(/bfloat16) and int64/32/16/8 vectors (every accepted form); two thirds of the projection cases, half of the chain cases and "
+    "two thirds of the in-situ cases first make 1-4 public calls that are rejected with an exception (probe setter with wrong ROI / ndim / mode count, invalid constraint keys, masks, thicknesses, "
+    "reconstruct() with bad arguments, ...), catch it, check that mode count / shapes / raw values are unchanged and then judge the same identities; "
     "non-trivial = non-zero shift / thickness with phase >= 0.5 rad / >= 1 repeated index / measured != predicted amplitudes / raw object off the unit circle by >= 0.5; "
     "distinct = (operator, ROI parity+squareness, modes, dtype/backend or object type)"
 )
@@ -38,6 +41,7 @@ REQUIRED_COUNTERS = [
     "eval:translation_energy", "eval:translation_additivity", "eval:integer_shift_not_roll", "eval:propagator_not_unit_modulus", "eval:propagator_additivity",
     "eval:propagation_energy", "eval:propagation_inverse", "eval:scatter_not_adjoint", "eval:pure_phase_intensity_not_conserved",
     "eval:projection_amplitude_mismatch", "eval:projection_not_idempotent", "eval:detector_parseval", "insitu_cases_completed",
+    "rejected_calls_caught", "eval:translation_depends_on_shift_dtype",
 ]
 
 T64 = 1e-10
@@ -336,6 +340,32 @@ def _run_translate(spec, idx, ctx):
             r = np.roll(x, (int(s[b, 0]), int(s[b, 1])), axis=(-2, -1))
             worst = max(worst, np.abs(yn[b] - r).max() / xmax / (1 + np.abs(s[b]).max()))
         ctx.close(worst, ROLL_TOL, "integer_shift_not_roll", lambda: "max |T_s x - roll(x, s)| / max|x| / (1+|s|), shifts %s shape %s" % (s[:3].tolist(), (h, w)), track="c128", **f)
+        # the same integer shifts handed over in every dtype / container form the functions accept (probed on the unchanged tree:
+        # numpy float64/32/16 and int64/32/16/8, torch float64/32/16/bfloat16 and int64/32/16/8, numpy shifts with a torch array;
+        # Python lists and torch shifts with a numpy array are rejected with TypeError): an integer translation is a roll whatever the
+        # dtype the caller's shift vector happens to have, T_a T_b = T_{a+b}, and ints give what the same floats give
+        si = np.clip(s, -120, 120)  # representable in int8 / float16 / bfloat16
+        si2 = np.rint(np.clip(s2, -60, 60))
+        ref = np.stack([np.roll(x, (int(si[b, 0]), int(si[b, 1])), axis=(-2, -1)) for b in range(B)])
+        scale_s = 1 + np.abs(si).max(axis=1)[:, None, None, None]
+        forms = [("np", "np." + np.dtype(d).name, (lambda a, d=d: a.astype(d))) for d in (np.float64, np.float32, np.float16, np.int64, np.int32, np.int16, np.int8)]
+        forms += [("torch", str(d).replace("torch.", "torch_"), (lambda a, d=d: torch.tensor(a).to(d))) for d in (torch.float64, torch.float32, torch.float16, torch.bfloat16, torch.int64, torch.int32, torch.int16, torch.int8)]
+        forms += [("torch_array_np_shifts", "np.int64", (lambda a: a.astype(np.int64))), ("torch_array_np_shifts", "np.int32", (lambda a: a.astype(np.int32)))]
+        pick = [forms[j] for j in rng.permutation(len(forms))[:6]] + [fm for fm in forms if fm[1] in ("np.int64", "torch_int64")]
+        for bk, name, cast in pick:
+            arr = x if bk == "np" else torch.tensor(x)
+            g = dict(f, backend=bk, shift_dtype=name)
+            exact = name in ("np.float64", "np.int64", "np.int32", "torch_float64")  # float64 arithmetic on float32-rounded frequencies; the others run in float32
+            tol = ROLL_TOL if exact else T32
+            yi = _np(pu.fourier_shift_expand(arr, cast(si)))
+            if not ctx.check(yi.shape == (B, M, h, w), "translation_shape_dtype", "shift dtype %s: output %s" % (name, yi.shape), **g):
+                continue
+            ctx.close(float((np.abs(yi - ref) / xmax / scale_s).max()), tol, "integer_shift_not_roll", lambda: "shift vector given as %s (%s backend): max |T_s x - roll(x, s)| / max|x| / (1+|s|), shifts %s" % (name, bk, si[:3].tolist()),
+                      track="shift_dtype:" + ("f64" if exact else "f32"), **g)
+            oa, ob, oab = (_np(pu.fourier_translation_operator(cast(v), (M, h, w))).astype(np.complex128) for v in (si, si2, si + si2))
+            ctx.close(float(np.abs(oa * ob - oab).max()) / (1 + float(np.abs(si).max() + np.abs(si2).max())), tol, "translation_additivity", lambda: "shift vectors given as %s: ramp(a) ramp(b) - ramp(a+b)" % name, track="shift_dtype", **g)
+            of = _np(pu.fourier_translation_operator(si.astype(np.float64) if bk != "torch" else torch.tensor(si), (M, h, w))).astype(np.complex128)
+            ctx.close(float(np.abs(oa - of).max()) / (1 + float(np.abs(si).max())), tol, "translation_depends_on_shift_dtype", lambda: "ramp for shifts given as %s vs the same shifts given as float64" % name, **g)
     # (real-valued input arrays are outside the property's quantifier "for all complex arrays/probe stacks" and are not generated)
     # expand_dim=False: one shift per mode (used by the probe centring constraint)
     sm = rng.uniform(-N, N, size=(M, 2))
@@ -503,6 +533,88 @@ def _run_detector(spec, idx, ctx):
 
 
 # ------------------------------------------------------------------------------------------------
+# rejected public calls (behaviour after an error): a caller catches the exception and carries on with the same objects
+
+
+def _rejected_calls(ctx, pt, rng, n, where):
+    """Makes n public calls that the unchanged tree rejects with an exception (probed), catches them like an interactive caller, and
+    checks that what the forward model / fourier_projection read (mode count, probe / object shapes and raw values) is untouched.
+    The operator identities judged afterwards by the caller must hold exactly as on a fresh model."""
+    torch = ctx.state["torch"]
+    pm, om = pt.probe_model, pt.obj_model
+    M, S = int(pt.num_probes), int(pt.num_slices)
+    h, w = (int(v) for v in pt.roi_shape)
+    J = int(pt.dset.num_gpts)
+    one = lambda *shape: np.ones(shape, np.complex64)  # noqa: E731
+    cands = {
+        "probe=2d_wrong_roi": lambda: setattr(pm, "probe", one(h + 1, w)),
+        "probe=1mode_wrong_roi": lambda: setattr(pm, "probe", one(1, h, w + 2)),
+        "probe=wrong_roi": lambda: setattr(pm, "probe", one(M, h + 2, w)),
+        "probe=wrong_mode_count": lambda: setattr(pm, "probe", torch.ones((M + 1, h, w), dtype=torch.complex64)),
+        "probe=4d": lambda: setattr(pm, "probe", one(1, M, h, w)),
+        "probe=str": lambda: setattr(pm, "probe", "nope"),
+        "probe.add_constraint(bad_key)": lambda: pm.add_constraint("no_such_constraint", 1),
+        "obj.constraints=bad_key": lambda: setattr(om, "constraints", {"no_such_constraint": 1}),
+        "pt.constraints=bad_category": lambda: setattr(pt, "constraints", {"no_such_category": {}}),
+        "pt.constraints=bad_key": lambda: setattr(pt, "constraints", {"object": {"no_such_constraint": 1}}),
+        "obj.mask=4d": lambda: setattr(om, "mask", np.ones((2, 2, 3, 3), np.float32)),
+        "pt.set_obj_type(bad)": lambda: pt.set_obj_type("no_such_type"),
+        "pt.slice_thicknesses=bad_len": lambda: setattr(pt, "slice_thicknesses", [1.0] * (S + 2)),
+        "pt.obj_fov_mask=4d": lambda: setattr(pt, "obj_fov_mask", np.ones((2, 2, 3, 3), np.float32)),
+        "pt.obj_padding_px=bad_len": lambda: setattr(pt, "obj_padding_px", (1, 2, 3)),
+        "pt.batch_size=0": lambda: setattr(pt, "batch_size", 0),
+        "pt.val_ratio=1.5": lambda: setattr(pt, "val_ratio", 1.5),
+        "pt.val_mode=bad": lambda: setattr(pt, "val_mode", "nope"),
+        "reconstruct(bad_constraints)": lambda: pt.reconstruct(num_iters=1, constraints={"no_such_category": {}}, batch_size=J),
+        "reconstruct(bad_batch_size)": lambda: pt.reconstruct(num_iters=1, batch_size=-3),
+        "reconstruct(bad_optimizer_key)": lambda: pt.reconstruct(num_iters=1, optimizer_params={"no_such_model": {}}, batch_size=J),
+        "reconstruct(bad_loss_type)": lambda: pt.reconstruct(num_iters=1, optimizer_params={"object": {"type": "sgd", "lr": 0.0}}, loss_type="no_such_loss", batch_size=J),
+        "probe.num_probes=0": lambda: setattr(pm, "num_probes", 0),
+        "probe.roi_shape=bad": lambda: setattr(pm, "roi_shape", (0, 3)),
+        "pt.probe_model=3": lambda: setattr(pt, "probe_model", 3),
+        "pt.obj_model=3": lambda: setattr(pt, "obj_model", 3),
+        "pt.detector_model=3": lambda: setattr(pt, "detector_model", 3),
+    }
+    if M > 1:
+        cands["probe=2d_right_roi"] = lambda: setattr(pm, "probe", one(h, w))  # (a valid assignment on a single-mode model)
+    if S > 1:
+        cands["pt.propagators=bad_shape"] = lambda: setattr(pt, "propagators", one(S + 1, h, w))
+    names = sorted(cands)
+    pw = np.array([4.0 if nm.startswith("probe=") else 1.0 for nm in names])
+    done = []
+
+    def snap():
+        with torch.no_grad():
+            return {"num_probes": int(pt.num_probes), "probe_model.num_probes": int(pm.num_probes), "probe.shape": tuple(pm.probe.shape), "raw_probe.shape": tuple(pm._probe.shape),
+                    "num_slices": int(pt.num_slices), "obj.shape": tuple(om.obj.shape), "roi_shape": tuple(int(v) for v in pt.roi_shape), "obj_type": str(pt.obj_type),
+                    "raw_probe": pm._probe.detach().clone(), "raw_obj": om._obj.detach().clone()}
+
+    saved_live, ctx.state["live"] = ctx.state["live"], None  # (the operator wrappers judge the workload, not these rejected calls)
+    try:
+        for nm in rng.choice(names, size=n, p=pw / pw.sum()):
+            nm = str(nm)
+            before = snap()
+            try:
+                cands[nm]()
+            except Exception:  # noqa: BLE001
+                ctx.count("rejected_calls_caught")
+            else:
+                ctx.count("rejected_call_not_rejected:" + nm)  # accepted after all: whatever it did was a valid operation, nothing to compare
+                done.append(nm + "(accepted)")
+                continue
+            after = snap()
+            diff = [k for k in before if (not torch.equal(before[k], after[k]) if isinstance(before[k], torch.Tensor) else before[k] != after[k])]
+            ctx.check(not diff, "state_changed_by_rejected_call", lambda: "after the rejected call %s: %s" % (nm, {k: (before[k], after[k]) for k in diff if not isinstance(before[k], torch.Tensor)} or diff),
+                      operator="state", where=where, call=nm.split("(")[0].split("=")[0], changed=",".join(diff))
+            ctx.check(after["num_probes"] == after["raw_probe.shape"][0] == after["probe.shape"][0], "mode_count_inconsistent_with_probe", lambda: "num_probes %s, probe %s after %s" % (after["num_probes"], after["probe.shape"], nm),
+                      operator="state", where=where, call=nm.split("(")[0].split("=")[0])
+            done.append(nm)
+    finally:
+        ctx.state["live"] = saved_live
+    return done
+
+
+# ------------------------------------------------------------------------------------------------
 # projection (needs a real Ptychography instance: fourier_projection reads num_probes and calls estimate_amplitudes)
 
 
@@ -536,21 +648,24 @@ def _run_projection(spec, idx, ctx):
     if rng.random() < 0.5:
         meas[rng.random((B, h, w)) < 0.05] = 10.0 ** rng.uniform(-6, -3)
     nz = int((meas == 0).sum())
+    # two thirds of the cases: the same identities after public calls that were rejected with an exception and caught by the caller
+    rejected = _rejected_calls(ctx, pt, rng, int(rng.integers(1, 4)), "direct_after_error") if spec["i"] % 3 else []
+    where = "direct_after_error" if rejected else "direct"
     for dt, rdt in ((torch.complex64, torch.float32), (torch.complex128, torch.float64)):
         x = torch.tensor(xn).to(dt)
         m = torch.tensor(meas).to(rdt)
         with torch.no_grad():
             res = pt.fourier_projection(m, x)
-            f = dict(operator="projection", where="direct", dtype=str(dt).replace("torch.", ""), parity=_parity(roi), modes="single" if M == 1 else "mixed")
+            f = dict(operator="projection", where=where, dtype=str(dt).replace("torch.", ""), parity=_parity(roi), modes="single" if M == 1 else "mixed")
             if not ctx.check(tuple(res.shape) == tuple(x.shape) and res.is_complex(), "projection_shape_dtype", "fourier_projection returned %s %s" % (tuple(res.shape), res.dtype), **f):
                 continue
             st["busy"] = True
             try:
-                _judge_projection(ctx, pt, m, x, res, where="direct")
+                _judge_projection(ctx, pt, m, x, res, where=where)
             finally:
                 st["busy"] = False
-    ctx.nontrivial(("projection", _par(roi), "single" if M == 1 else "mixed%d" % M), nz > 0)
-    ctx.observe(roi=list(roi), modes=M, batch=B, measured_zeros=nz)
+    ctx.nontrivial(("projection", _par(roi), "single" if M == 1 else "mixed%d" % M, "after_error" if rejected else "fresh"), nz > 0)
+    ctx.observe(roi=list(roi), modes=M, batch=B, measured_zeros=nz, rejected_calls=rejected)
 
 
 # ------------------------------------------------------------------------------------------------
@@ -584,7 +699,10 @@ def _run_chain(spec, idx, ctx):
         pr = pt.probe_model._probe
         pr.data = torch.tensor((rng.normal(size=tuple(pr.shape)) + 1j * rng.normal(size=tuple(pr.shape))) * 10.0 ** rng.uniform(-1, 2)).to(pr.dtype)
         off_circle = float(np.abs(np.abs(new) - 1).max()) if ot == "pure_phase" else float(np.abs(new).max())
-        st["live"] = _live(ctx, pt, sc, "chain")
+    rejected = _rejected_calls(ctx, pt, rng, int(rng.integers(1, 4)), "chain_after_error") if spec["i"] % 2 else []
+    f["where"] = "chain_after_error" if rejected else "chain"
+    with torch.no_grad():
+        st["live"] = _live(ctx, pt, sc, f["where"])
         try:
             J = pt.dset.num_gpts
             nb = int(rng.integers(1, J + 1))
@@ -607,8 +725,18 @@ def _run_chain(spec, idx, ctx):
             ctx.close(float((Pz.abs().double() - 1).abs().max()), T32, "propagator_not_unit_modulus", "Ptychography.propagators of the scene", **dict(f, operator="propagate"))
         fr = _np(frac)
         nfrac = int((np.abs(fr).max(axis=1) > 1e-3).sum())
-    ctx.nontrivial(("chain", ot, S, M, _par(roi)), off_circle >= 0.5 and nfrac >= 1)
-    ctx.observe(scene=sc.describe(), raw_scale=scale, off_unit_circle=off_circle, fractional_positions=nfrac, batch=nb)
+        # Fourier-magnitude replacement of the real exit waves by the measured amplitudes of the same patterns
+        if _finite(overlap):
+            pt.dset._set_targets("l2_amplitude")
+            targets = pt.dset.targets[bidx]
+            res = pt.fourier_projection(targets, overlap)
+            st["busy"] = True
+            try:
+                _judge_projection(ctx, pt, targets, overlap, res, where=f["where"], insitu=True)
+            finally:
+                st["busy"] = False
+    ctx.nontrivial(("chain", ot, S, M, _par(roi), "after_error" if rejected else "fresh"), off_circle >= 0.5 and nfrac >= 1)
+    ctx.observe(scene=sc.describe(), raw_scale=scale, off_unit_circle=off_circle, fractional_positions=nfrac, batch=nb, rejected_calls=rejected)
 
 
 def _run_insitu(spec, idx, ctx):
@@ -628,15 +756,23 @@ def _run_insitu(spec, idx, ctx):
     raw0 = _np(pt.obj_model._obj)
     off_circle = float(np.abs(np.abs(raw0) - 1).max()) if ot != "potential" else float(np.abs(raw0).max())
     before = {k: ctx.counters.get(k, 0) for k in ("eval:pure_phase_intensity_not_conserved", "eval:projection_amplitude_mismatch", "eval:translation_energy", "eval:detector_parseval")}
+    n_it = 5 if ctx.tier == "quick" else 8
+    rejected = []
+    if i % 3:
+        rejected += _rejected_calls(ctx, pt, rng, int(rng.integers(1, 3)), L["where"])
+        L["where"] += "_after_error"
     st["live"] = L
     try:
-        insitu.run_hostile(pt, num_iters=5 if ctx.tier == "quick" else 8, lr_obj=lr_o, lr_probe=lr_p, batch_size=bs, autograd=autograd, opt="adam" if autograd else "sgd")
+        insitu.run_hostile(pt, num_iters=n_it - 2, lr_obj=lr_o, lr_probe=lr_p, batch_size=bs, autograd=autograd, opt="adam" if autograd else "sgd")
+        if i % 3:
+            rejected += _rejected_calls(ctx, pt, rng, int(rng.integers(1, 3)), L["where"])
+        insitu.run_hostile(pt, num_iters=2, lr_obj=lr_o, lr_probe=lr_p, batch_size=bs, autograd=autograd, opt="adam" if autograd else "sgd")
     finally:
         st["live"] = None
     ctx.count("insitu_cases_completed")
     fired = {k.replace("eval:", ""): ctx.counters.get(k, 0) - v for k, v in before.items()}
-    ctx.nontrivial(("insitu", ot, S, M, _par(roi), "ad" if autograd else "gd"), off_circle >= 0.5 and sum(fired.values()) > 0)
-    ctx.observe(scene=sc.describe(), autograd=autograd, batch=bs, lr=[lr_o, lr_p], monitor_events=fired, final_loss=float(pt.iter_losses[-1]) if len(pt.iter_losses) else None,
+    ctx.nontrivial(("insitu", ot, S, M, _par(roi), "ad" if autograd else "gd", "after_error" if rejected else "fresh"), off_circle >= 0.5 and sum(fired.values()) > 0)
+    ctx.observe(scene=sc.describe(), rejected_calls=rejected, autograd=autograd, batch=bs, lr=[lr_o, lr_p], monitor_events=fired, final_loss=float(pt.iter_losses[-1]) if len(pt.iter_losses) else None,
                 max_raw_obj=float(np.abs(_np(pt.obj_model._obj)).max()))
 
 
